@@ -216,8 +216,17 @@ ITER_ADAPTERS = ("slice::<impl [T]>::iter", "Iterator::copied", "Iterator::clone
 
 
 def _mut_ref_to(raw, target):
-    """does the raw (un-normalised) expression contain `&mut P` with P inside `target` (normalisation erases mutability)"""
-    return bool(find_all(raw, lambda x: x[0] == "ref" and len(x) == 3 and x[1] is True and find_all(n(x[2]), lambda y: y == target)))
+    """does the raw (un-normalised) expression hand out `&mut P` with P inside `target` (normalisation erases mutability);
+    a `&mut` that only feeds a length query (`len(..)`, `is_empty(..)`) is a read, not a hand-out"""
+    def strip(e):
+        if not isinstance(e, tuple):
+            return e
+        if e and e[0] == "call" and isinstance(e[1], int) and e[2].endswith(("::len", "::is_empty")):
+            return ("const", 0)
+        if e and e[0] == "len":
+            return ("const", 0)
+        return tuple(strip(x) for x in e)
+    return bool(find_all(strip(raw), lambda x: x[0] == "ref" and len(x) == 3 and x[1] is True and find_all(n(x[2]), lambda y: y == target)))
 
 
 def _iter_source(e):
@@ -437,8 +446,9 @@ def _tail_ops(p, start_index, D, TAIL, T, env, end_index=1 << 30, extra=None):
                 ops.append(("?", "%s with non-affine offsets" % nm))
                 continue
             ops.append(("D", dlo, (dlo[0] + cnt[0], dlo[1] + cnt[1]), (slo[0] - dlo[0], slo[1] - dlo[1]), cnt))
-        elif nm in ("len", "index", "index_mut", "as_ptr", "as_mut_ptr", "as_mut_slice", "as_slice", "add", "deref", "deref_mut", "likely", "unlikely", "is_empty"):
-            continue
+        elif nm in ("len", "index", "index_mut", "as_ptr", "as_mut_ptr", "as_mut_slice", "as_slice", "add", "deref", "deref_mut", "likely", "unlikely", "is_empty",
+                    "split_at", "split_at_mut", "get", "get_mut", "first", "last", "iter"):
+            continue  # pure view functions: what is written through their results is seen at the writing call / store
         else:
             # any other callee that receives the tail mutably
             if any(_mut_ref_to(a, TAIL) for a in c[2]):
